@@ -92,6 +92,11 @@ TEMPLATES = {
     "tile2": lambda: T((None, 2), [[2, 1]]),
     "mm222": lambda: T((2, 2, 2), [[1, 0, 0], [0, 0, 1]], [[0, 0, 1], [0, 1, 0]], [[1, 0, 0], [0, 1, 0]]),
     "mm2N2": lambda: T((2, None, 2), [[1, 0, 0], [0, 0, 1]], [[0, 0, 1], [0, 1, 0]], [[1, 0, 0], [0, 1, 0]]),
+    # templates with a unit spatial bound (a 1 x 2 x 2 vector-matrix array, a tile of one lane)
+    "mm122": lambda: T((1, 2, 2), [[1, 0, 0], [0, 0, 1]], [[0, 0, 1], [0, 1, 0]], [[1, 0, 0], [0, 1, 0]]),
+    "mm212": lambda: T((2, 1, 2), [[1, 0, 0], [0, 0, 1]], [[0, 0, 1], [0, 1, 0]], [[1, 0, 0], [0, 1, 0]]),
+    "vec1": lambda: T((1,), [[1]]),
+    "tile1": lambda: T((None, 1), [[2, 1]]),
     "bcast": lambda: T((2, 2), [[1, 0], [0, 1]], [[0, 1]]),  # second operand: a row broadcast over the first dim
     "rankmis": lambda: T((2, 2), [[1, 0], [0, 1]], [[1, 0], [0, 1]]),
 }
@@ -191,6 +196,11 @@ def space(tier):
     else:
         parts.append(Tagged("mm", Product(["mm222", "mm2N2"], perms(3), range(55), power([1, 2, 4, 5], 3), ["none", "pos+mem888", "ocs"], [0])))
         parts.append(Tagged("mm", Product(["mm222", "mm2N2"], perms(3), [0, 7, 30, 42, 45, 51, 54], power([1, 2, 4], 3), ["pos", "mem111"], [0, 1])))
+    # (c') templates with a unit spatial bound
+    parts.append(Tagged("mm", Product(["mm122", "mm212"], perms(3), [0, 7, 30, 42, 45, 51, 54] if not th else range(55), power([1, 2, 4] if not th else [1, 2, 4, 5], 3), ["none", "pos+mem888"], [0])))
+    for tname in ("vec1", "tile1"):
+        for d in (1, 2):
+            parts.append(Tagged("sched", Product([tname], [(1,)], [d], power([-1] + ent, d), power(BOUNDS_MENU, d), ["none"])))
     # (d) broadcast-row and rank-mismatch templates: two operands (2 rows, 1 or 2 rows), d = 2,3
     for tname, rows in (("bcast", (2, 1)), ("rankmis", (2, 2))):
         for d in (2, 3):
